@@ -691,7 +691,16 @@ func (g *G) c05Emit(reg *c05Reg, c c05Cfg, allowRecover bool) bool {
 	}
 	pts := reg.pts
 	if reg.kind == "pline" && maxI(minL, maxL) <= 20 {
-		pts = append(append([]s2.Point(nil), pts...), reg.mid...)
+		pts = append([]s2.Point(nil), pts...)
+		for _, m := range reg.mid {
+			// a midpoint is only a point of the polyline up to its own rounding (1e-16): it is used as a probe only if it is not
+			// within 1e-12 rad of the boundary of the finest cell the covering may use (otherwise the exact edge and the rounded
+			// midpoint can lie in different cells: false alarm of the thorough tier, DESIGN 7.3 no. 15)
+			c := s2.CellFromCellID(s2.CellFromPoint(m).ID().Parent(maxI(minL, maxL)))
+			if c.BoundaryDistance(m).Angle().Radians() > 1e-12 {
+				pts = append(pts, m)
+			}
+		}
 	}
 	if len(pts) > 150 { // keep the line short: an evenly spread subset
 		var sub []s2.Point
